@@ -32,8 +32,8 @@ def build_cases(encs, rng, tier, seed):
             add('fixed', tid, t, v, r, 'b:%d' % cap, ('cap', cap))
         offs = range(L + 1) if L <= full else sorted(set([0, 1, L - 1, L] + [rng.randrange(L) for _ in range(6)]))
         for j in offs:
-            k, n = rng.choice(USER_KINDS), rng.randrange(100)
-            add('fail_at', tid, t, v, r, 's:' + sched_s(['a1'] * j + ['f%d:%d' % (k, n)]), ('fail', j, 'User:%d' % k, n))
+            k, n = rng.choice(USER_KINDS), rand_msg(rng)
+            add('fail_at', tid, t, v, r, 's:' + sched_s(['a1'] * j + [fail_item(k, n)]), ('fail', j, 'User:%d' % k, n))
         add('fail_kind', tid, t, v, r, 's:' + sched_s(['a1'] * (L // 2) + ['fE:7']), ('fail', L // 2, 'UnexpectedEof', 7))
         jz = rng.randrange(L + 1)
         add('write_zero', tid, t, v, r, 's:' + sched_s(['a1'] * jz + ['z']), ('zero', jz))
@@ -47,8 +47,8 @@ def build_cases(encs, rng, tier, seed):
             for j in range(0, len(base), 1 if tier != 'quick' else 2):
                 add('interrupt_at', tid, t, v, r, 's:' + sched_s(base[:j] + [rng.choice(('i', 'i,i', 'fI:2'))] + base[j:]), ('all',))
         pre = rand_wsched(rng, max(1, rng.randrange(L + 1)), 0.3)
-        k, n = rng.choice(USER_KINDS), rng.randrange(100)
-        add('fail_random', tid, t, v, r, 's:' + sched_s(pre + ['f%d:%d' % (k, n)]), ('mayfail', 'User:%d' % k, n))
+        k, n = rng.choice(USER_KINDS), rand_msg(rng)
+        add('fail_random', tid, t, v, r, 's:' + sched_s(pre + [fail_item(k, n)]), ('mayfail', 'User:%d' % k, n))
     # > 1 MiB
     tv = tid_of()[VEC_U8]
     n = (1 << 20) + 4097
@@ -99,7 +99,7 @@ def oracle(c, out):
             return None
         if ex[0] == 'cap' and res == 'err WriteZero WriteWhole':
             return None
-        if ex[0] in ('fail', 'mayfail') and res == 'err %s User:%d' % (ex[-2], ex[-1]):
+        if ex[0] in ('fail', 'mayfail') and res == 'err %s %s' % (ex[-2], fail_msg(ex[-1])):
             return None
         if ex[0] in ('zero', 'mayzero') and res == 'err WriteZero WriteWhole':
             return None
@@ -122,7 +122,7 @@ def oracle(c, out):
         j, kind, num = ex[1], ex[2], ex[3]
         if j >= L:
             return None if res == 'ok' else 'failure scheduled after the last byte was reported: %s' % res
-        if res != 'err %s User:%d' % (kind, num):
+        if res != 'err %s %s' % (kind, fail_msg(num)):
             return 'failure after %d bytes came back as %s' % (j, res)
         return None if len(sink) // 2 == j else 'failure after %d bytes, %d delivered' % (j, len(sink) // 2)
     if ex[0] == 'zero':
@@ -139,7 +139,7 @@ def oracle(c, out):
     if ex[0] == 'mayfail':
         if res == 'ok':
             return None
-        return None if (res == 'err %s User:%d' % (ex[1], ex[2]) and len(sink) // 2 < L) else 'unexpected %s with %d of %d bytes' % (res, len(sink) // 2, L)
+        return None if (res == 'err %s %s' % (ex[1], fail_msg(ex[2])) and len(sink) // 2 < L) else 'unexpected %s with %d of %d bytes' % (res, len(sink) // 2, L)
     return None
 
 
